@@ -189,8 +189,17 @@ impl<Db: Database> StorageManager<Db> {
 
     /// Commit a transaction in the database.
     pub async fn commit_transaction(&self) -> Result<u64, StorageError> {
-        // this retrieves all the trans operations, and "de-activates" the transaction flag
-        let records = self.transaction.commit_transaction()?;
+        // this retrieves all the trans operations. The transaction flag stays set until the records have
+        // been written: a transaction which begins while this write is still in flight would read the
+        // state from before this commit and then overwrite what this commit writes.
+        let records = self.transaction.take_records_for_commit()?;
+        let result = self.write_committed_records(records).await;
+        self.transaction.end_transaction();
+        result
+    }
+
+    /// Write the records of a committing transaction to the database, then to the cache.
+    async fn write_committed_records(&self, records: Vec<DbRecord>) -> Result<u64, StorageError> {
         let num_records = records.len();
 
         // The transaction is now complete (or reverted) and therefore we can re-enable
